@@ -38,7 +38,13 @@ def schemas(tier, seed=1):
     if tier == "quick":
         want = ("h_reorder", "h_types64_be", "h_gaps", "h_counters_be", "h_extra", "h_refs")
         hs = [S for S in hs if S["package"] in want]
-    return catalogue.view_schemas() + hs + [traitsgen.c18_schema(), traitsgen.c18_fp_schema("float"), traitsgen.c18_fp_schema("double"), traitsgen.c18_text_schema(), traitsgen.c18_quote_schema(), traitsgen.c18_ctrl_schema()] + generated(tier, seed)
+    return catalogue.view_schemas() + hs + [traitsgen.c18_schema(), traitsgen.c18_fp_schema("float"), traitsgen.c18_fp_schema("double"), traitsgen.c18_text_schema(), traitsgen.c18_quote_schema(), traitsgen.c18_ctrl_schema()] + generated(tier, seed) + repo_schemas()
+
+
+def repo_schemas():
+    """the repository's own schemas (tools/xmlimport.py): trait tables of schemas that were not written for Traits.tla"""
+    import viewpipe
+    return viewpipe.repo_schemas("thorough", 0)
 
 
 # ------------------------------------------------------------ expected -----
